@@ -362,7 +362,7 @@ def parse_cond(rec):
 # spec oracles (exact, on the code's output)
 
 
-def lyap_spec(ctx, key, A, B, X, replay):
+def lyap_spec(ctx, key, A, B, X, replay, env=ENV):
     """A X A' - X + B = 0 up to rounding, for stable A"""
     if not finite(X):
         ctx.spec_fail(key, "non-finite X for a Schur-stable A", replay)
@@ -372,8 +372,8 @@ def lyap_spec(ctx, key, A, B, X, replay):
     scale = max(F(1), maxabs(Xf), maxabs(B)) * (1 + ninf(A)) ** 2
     r = maxabs(res)
     ctx.extra["lyap_max_rel_residual"] = max(ctx.extra.get("lyap_max_rel_residual", 0.0), float(r / scale))
-    if r > F(ENV) * scale:
-        ctx.spec_fail(key, "Lyapunov residual %.3e > %.1e*scale(%.3e)" % (float(r), ENV, float(scale)), replay)
+    if r > F(env) * scale:
+        ctx.spec_fail(key, "Lyapunov residual %.3e > %.1e*scale(%.3e)" % (float(r), env, float(scale)), replay)
 
 
 def ricc_quantities(A, B, Q, R, N, Xf):
@@ -386,7 +386,7 @@ def ricc_quantities(A, B, Q, R, N, Xf):
     return msub(Xf, rhs), msub(A, mm(B, Fm))
 
 
-def ricc_spec(ctx, key, A, B, Q, R, N, X, replay):
+def ricc_spec(ctx, key, A, B, Q, R, N, X, replay, env=ENV):
     """symmetric PSD X solving the Riccati equation up to rounding, stabilising"""
     if not finite(X):
         ctx.spec_fail(key, "non-finite X", replay)
@@ -394,7 +394,7 @@ def ricc_spec(ctx, key, A, B, Q, R, N, X, replay):
     Xf = fm(X)
     sx = max(F(1), maxabs(Xf))
     asym = maxabs(msub(Xf, tr(Xf)))
-    if asym > F(ENV) * sx:
+    if asym > F(env) * sx:
         ctx.spec_fail(key, "X not symmetric: max|X-X'|=%.3e" % float(asym), replay)
     q = ricc_quantities(A, B, Q, R, N, Xf)
     if q is None:
@@ -404,10 +404,10 @@ def ricc_spec(ctx, key, A, B, Q, R, N, X, replay):
     scale = sx * (1 + ninf(A)) ** 2
     r = maxabs(res)
     ctx.extra["ricc_max_rel_residual"] = max(ctx.extra.get("ricc_max_rel_residual", 0.0), float(r / scale))
-    if r > F(ENV) * scale:
-        ctx.spec_fail(key, "Riccati residual %.3e > %.1e*scale(%.3e)" % (float(r), ENV, float(scale)), replay)
+    if r > F(env) * scale:
+        ctx.spec_fail(key, "Riccati residual %.3e > %.1e*scale(%.3e)" % (float(r), env, float(scale)), replay)
     Xs = scal(F(1, 2), madd(Xf, tr(Xf)))
-    if not is_pd(madd(Xs, scal(F(ENV) * sx, eye(len(Xs))))):
+    if not is_pd(madd(Xs, scal(F(env) * sx, eye(len(Xs))))):
         ctx.spec_fail(key, "X not positive semidefinite (LDL' of X + 1e-8*scale*I has a non-positive pivot)", replay)
     if not schur_stable(Acl):
         ctx.spec_fail(key, "closed loop A - B F not Schur stable (exact Schur-Cohn test on its characteristic "
@@ -438,6 +438,86 @@ def ref_riccati(A, B, Q, R, N, iters=4000):
     Fm = np.linalg.solve(R + B.T @ X @ B, N + B.T @ X @ A)
     rho = float(np.max(np.abs(np.linalg.eigvals(A - B @ Fm))))
     return X, rho
+
+
+# ----------------------------------------------------------------------------------------------
+# argument forms and aliasing (spec run only: the forms are legal inputs, the result must not depend on them)
+
+FORMS = ("C", "F", "T-view", "strided", "reversed", "readonly", "list", "f32", "int")
+ENV32 = 1e-4        # envelope when an input is float32 (the code then computes partly in float32)
+
+
+def as_form(a, form):
+    """the C-contiguous float64 2-D array `a` in another legal form; None when the form cannot hold the values"""
+    a = np.array(a, dtype=float, order="C")
+    if form == "C":
+        return a
+    if form == "F":
+        return np.asfortranarray(a)
+    if form == "T-view":                      # N = S.T : Fortran-contiguous view of somebody else's memory
+        return np.ascontiguousarray(a.T).T
+    if form == "strided":
+        big = np.full((2 * a.shape[0] + 1, 3 * a.shape[1] + 2), 7.5)
+        v = big[1::2, 2::3]
+        v[...] = a
+        return v
+    if form == "reversed":
+        return np.array(a[::-1, ::-1])[::-1, ::-1]
+    if form == "readonly":
+        b = np.asfortranarray(a) if a.shape[0] > 1 else a.copy()
+        b.flags.writeable = False
+        return b
+    if form == "list":
+        return a.tolist()
+    if form == "f32":
+        b = a.astype(np.float32)
+        return b if np.array_equal(b.astype(float), a) else None
+    if form == "int":
+        b = a.astype(np.int64)
+        return b if np.array_equal(b.astype(float), a) else None
+    raise ValueError(form)
+
+
+def root_of(x):
+    while isinstance(getattr(x, "base", None), np.ndarray):
+        x = x.base
+    return x
+
+
+def snapshot(obj):
+    """bit-exact image of an argument (for views: of the whole underlying buffer as well)"""
+    if isinstance(obj, np.ndarray):
+        r = root_of(obj)
+        return ("nd", obj.dtype.str, obj.shape, obj.strides, np.array(obj).tobytes(), np.array(r).tobytes())
+    import copy
+    return ("py", copy.deepcopy(obj))
+
+
+def unchanged(obj, snap):
+    if isinstance(obj, np.ndarray):
+        r = root_of(obj)
+        return snap == ("nd", obj.dtype.str, obj.shape, obj.strides, np.array(obj).tobytes(), np.array(r).tobytes())
+    return snap == ("py", obj)
+
+
+def module_arrays(*mods):
+    """every ndarray reachable from module globals (directly or inside dict / list / tuple containers)"""
+    out = []
+
+    def walk(name, v, depth):
+        if isinstance(v, np.ndarray):
+            out.append((name, v))
+        elif depth < 3 and isinstance(v, dict):
+            for kk, vv in list(v.items()):
+                walk("%s[%r]" % (name, kk), vv, depth + 1)
+        elif depth < 3 and isinstance(v, (list, tuple)):
+            for ii, vv in enumerate(v):
+                walk("%s[%d]" % (name, ii), vv, depth + 1)
+    for m in mods:
+        for nm, v in list(vars(m).items()):
+            if not nm.startswith("__"):
+                walk("%s.%s" % (m.__name__, nm), v, 0)
+    return out
 
 
 # ----------------------------------------------------------------------------------------------
@@ -873,11 +953,38 @@ def run(ctx):
         An, Bn, Qn, Rn, Nn = map(to_np, (A, B, Q, R, N))
         replay = {"fn": "solve_discrete_riccati", "A": An.tolist(), "B": Bn.tolist(), "Q": Qn.tolist(), "R": Rn.tolist(),
                   "N": Nn.tolist(), "tolerance": tol, "max_iter": max_iter, "method": "doubling"}
+
+        def ricc_judge(st, X, args):
+            if st != "ok":
+                ctx.spec_fail("ricc_doubling_raise", "doubling raised %s on a well-conditioned stabilisable/detectable "
+                                                     "problem: %s" % (st, X), replay)
+            else:
+                ricc_spec(ctx, "ricc_doubling", A, B, Q, R, N, X, replay)
+            (stq, Xq), _ = call_ricc(me, *args, record=False, method="qz")
+            rq = dict(replay, method="qz")
+            if stq != "ok":
+                ctx.spec_fail("ricc_qz_raise", "qz raised %s: %s" % (stq, Xq), rq)
+            else:
+                ctx.count("ricc:qz")
+                ricc_spec(ctx, "ricc_qz", A, B, Q, R, N, Xq, rq)
+                if st == "ok" and finite(X) and finite(Xq):
+                    dd = float(np.max(np.abs(X - Xq)))
+                    sx = max(1.0, float(np.max(np.abs(Xq)))) * float((1 + ninf(A)) ** 2)
+                    ctx.extra["ricc_max_rel_method_gap"] = max(ctx.extra.get("ricc_max_rel_method_gap", 0.0), dd / sx)
+                    if dd > ENV_AGREE * sx:
+                        ctx.spec_fail("ricc_methods_agree", "doubling and qz differ by %.3e (scale %.3e)" % (dd, sx), replay)
         if scalar:
             args = (float(An[0, 0]), float(Bn[0, 0]), float(Qn[0, 0]), float(Rn[0, 0]), None if d["Nzero"] else float(Nn[0, 0]))
         else:
             args = (An, Bn, Qn, Rn, None if (d["Nzero"] and rng.random() < 0.5) else Nn)
+        # the plain call is what is judged; the recorded call (wrappers around solve/cond) feeds the correspondence
+        (st0, X0), _ = call_ricc(me, *args, record=False, tolerance=tol, max_iter=max_iter)
+        if spec:
+            ricc_judge(st0, X0, args)
         (st, X), rec = call_ricc(me, *args, tolerance=tol, max_iter=max_iter)
+        if st != st0 or (st == "ok" and X.tobytes() != X0.tobytes()):
+            ctx.mismatches.append({"request": "recorded call", "code": str(st0), "model": str(st), "meta": replay,
+                                   "why": "wrapping solve/cond changed the result of solve_discrete_riccati"})
         ctx.count("ricc:kind:" + kind)
         ctx.count("ricc:k=%d,n=%d" % (k, n))
         for nm in ("block", "Nzero", "Qsing", "unstable"):
@@ -886,7 +993,9 @@ def run(ctx):
         # ---- gamma rule on the code's own condition numbers
         pc = parse_cond(rec)
         if pc is None:
-            ctx.notes.append("could not parse the recorded cond calls")
+            ctx.mismatches.append({"request": "recorded cond calls", "code": str([c[0] for c in rec.cond])[:200], "model": "-",
+                                   "meta": replay, "why": "the pattern of np.linalg.cond calls is not the one the model "
+                                                          "describes (lines 176-190)"})
             return
         nacc = sum(1 for c in pc if c[3])
         ctx.count("ricc:candidates-admitted=%d" % nacc)
@@ -909,6 +1018,10 @@ def run(ctx):
                 fxs(CANDIDATES), fxs([c[0] for c in pc]), fxs([c[1] for c in pc]), fxs([c[2] for c in pc]), fx(EPS)),
                 impl_g, nontrivial=nacc >= 2, tag="gammasel"))
         if gamma is None:
+            if st == "ok":
+                ctx.mismatches.append({"request": "recorded solve calls", "code": "%d calls" % len(rec.solve), "model": "-",
+                                       "meta": replay, "why": "the pattern of solve calls is not the one the model describes "
+                                                              "(3 per admitted candidate, 3 initial, 3 per pass)"})
             return
         passes = (len(rec.solve) - 3 * nacc - 3) // 3
         ctx.count("ricc:passes=%02d" % passes)
@@ -939,27 +1052,6 @@ def run(ctx):
         cases.append(Case("C06 riccf g=%s A=%s B=%s Q=%s R=%s N=%s tol=%s maxit=%d" % (
             fx(gamma), fxm(An.tolist()), fxm(Bn.tolist()), fxm(Qn.tolist()), fxm(Rn.tolist()), fxm(Nn.tolist()),
             tol_tok(tol), max_iter), impl, nontrivial=nt, cmp=mk_ricc_cmp(ctx, "riccf", tol), tag="riccf"))
-        # ---- spec
-        if not spec:
-            return
-        if st != "ok":
-            ctx.spec_fail("ricc_doubling_raise", "doubling raised %s on a well-conditioned stabilisable/detectable "
-                                                 "problem: %s" % (st, X), replay)
-        else:
-            ricc_spec(ctx, "ricc_doubling", A, B, Q, R, N, X, replay)
-        (stq, Xq), _ = call_ricc(me, *args, record=False, method="qz")
-        rq = dict(replay, method="qz")
-        if stq != "ok":
-            ctx.spec_fail("ricc_qz_raise", "qz raised %s: %s" % (stq, Xq), rq)
-        else:
-            ctx.count("ricc:qz")
-            ricc_spec(ctx, "ricc_qz", A, B, Q, R, N, Xq, rq)
-            if st == "ok" and finite(X) and finite(Xq):
-                dd = float(np.max(np.abs(X - Xq)))
-                sx = max(1.0, float(np.max(np.abs(Xq)))) * float((1 + ninf(A)) ** 2)
-                ctx.extra["ricc_max_rel_method_gap"] = max(ctx.extra.get("ricc_max_rel_method_gap", 0.0), dd / sx)
-                if dd > ENV_AGREE * sx:
-                    ctx.spec_fail("ricc_methods_agree", "doubling and qz differ by %.3e (scale %.3e)" % (dd, sx), replay)
 
     nR = ctx.n(90, 1000)
     made, tries = 0, 0
@@ -1004,5 +1096,223 @@ def run(ctx):
         d = {"A": [[F(1, 2)]], "B": [[F(0), F(1)]], "Q": [[F(1)]], "R": [[F(2) ** e, F(0)], [F(0), F(0)]],
              "N": [[F(0)], [F(0)]], "Nzero": False}
         ricc_case(d, "ill-conditioned-R", spec=False)
+
+    # ============================ argument forms ==================================================
+    # every input in C/F order, transposed / strided / reversed / read-only views, lists, float32, int; NumPy scalars
+    # for max_it / tolerance / max_iter; method positional or by keyword. Judged by the exact oracle against the
+    # ORIGINAL data; every argument must be bitwise unchanged after the call (views: their whole buffer too).
+    def pick_forms(mats, force=None):
+        out, labels = [], []
+        for idx, a in enumerate(mats):
+            f = force[idx] if force and force[idx] else rng.choice(FORMS)
+            v = as_form(a, f)
+            if v is None:
+                f, v = "C", as_form(a, "C")
+            out.append(v)
+            labels.append(f)
+            ctx.count("forms:" + f)
+        return out, labels
+
+    def call_checked(fn, key, args, kwargs, labels, replay):
+        snaps = [snapshot(a) for a in args]
+        try:
+            res = fn(*args, **kwargs)
+            st = "ok"
+        except Exception as e:      # a legal form must not raise
+            res, st = "%s: %s" % (type(e).__name__, e), "ERR"
+        for a, sn, lb, nm in zip(args, snaps, labels, replay["argnames"]):
+            if not unchanged(a, sn):
+                ctx.spec_fail(key + "_input_mutated", "argument %s (form %s) was modified by the call" % (nm, lb), replay)
+        return st, res
+
+    def forms_lyap(A, B, reps):
+        An, Bn = to_np(A), to_np(B)
+        base = np.atleast_2d(me.solve_discrete_lyapunov(An, Bn))
+        for r in range(reps):
+            (a, b), labels = pick_forms((An, Bn))
+            method = rng.choice(["doubling", "doubling", "bartels-stewart"])
+            style = rng.choice(["kw", "positional", "npint"])
+            if style == "kw":
+                extra_a, kw = (), {"method": method}
+            elif style == "positional":
+                extra_a, kw = (50, method), {}
+            else:
+                extra_a, kw = (np.int64(50),), {"method": method}
+            ctx.count("forms:lyap:" + style)
+            replay = {"fn": "solve_discrete_lyapunov", "A": An.tolist(), "B": Bn.tolist(), "forms": labels, "method": method,
+                      "call": style, "argnames": ["A", "B"]}
+            st, X = call_checked(me.solve_discrete_lyapunov, "lyap", [a, b] + list(extra_a), kw,
+                                 labels + ["-"] * len(extra_a), dict(replay, argnames=["A", "B", "max_it", "method"]))
+            if st != "ok":
+                ctx.spec_fail("lyap_form_raises", "legal argument forms %s raised %s" % (labels, X), replay)
+                continue
+            X = np.atleast_2d(np.asarray(X))
+            env = ENV32 if "f32" in labels else ENV
+            lyap_spec(ctx, "lyap_forms", A, B, np.asarray(X, dtype=float), replay, env=env)
+            if float(np.max(np.abs(np.asarray(X, dtype=float) - base))) > max(env, ENV_AGREE) * max(1.0, float(np.max(np.abs(base)))) * float((1 + ninf(A)) ** 2):
+                ctx.spec_fail("lyap_forms_agree", "result depends on the argument form %s" % labels, replay)
+            for nm, arg in (("A", a), ("B", b)):
+                if isinstance(arg, np.ndarray) and isinstance(X, np.ndarray) and np.shares_memory(X, arg):
+                    ctx.spec_fail("lyap_result_aliases_input", "returned X shares memory with %s" % nm, replay)
+            ctx.count("forms:lyap:calls")
+
+    def forms_ricc(d, reps):
+        mats = tuple(map(to_np, (d["A"], d["B"], d["Q"], d["R"], d["N"])))
+        (st0, base), _ = call_ricc(me, *mats, record=False, method="qz")
+        if st0 != "ok":
+            return
+        # systematic single-argument forms for N (the argument the start-up block reads three times) + random mixes
+        plans = [(None, None, None, None, f) for f in ("F", "T-view", "list", "strided", "readonly")]
+        plans += [None] * reps
+        for force in plans:
+            args, labels = pick_forms(mats, force)
+            method = rng.choice(["doubling", "doubling", "qz"])
+            style = rng.choice(["kw", "positional", "npscalars"])
+            if style == "kw":
+                extra_a, kw = (), {"method": method}
+            elif style == "positional":
+                extra_a, kw = (1e-10, 500, method), {}
+            else:
+                extra_a, kw = (np.float64(1e-10), np.int64(500)), {"method": method}
+            ctx.count("forms:ricc:" + style)
+            replay = {"fn": "solve_discrete_riccati", "A": mats[0].tolist(), "B": mats[1].tolist(), "Q": mats[2].tolist(),
+                      "R": mats[3].tolist(), "N": mats[4].tolist(), "forms": labels, "method": method, "call": style,
+                      "argnames": ["A", "B", "Q", "R", "N", "tolerance", "max_iter", "method"]}
+            st, X = call_checked(me.solve_discrete_riccati, "ricc", list(args) + list(extra_a), kw,
+                                 labels + ["-"] * len(extra_a), replay)
+            if st != "ok":
+                ctx.spec_fail("ricc_form_raises", "legal argument forms %s raised %s" % (labels, X), replay)
+                continue
+            X = np.atleast_2d(np.asarray(X, dtype=float))
+            env = ENV32 if "f32" in labels else ENV
+            ricc_spec(ctx, "ricc_forms_" + method, d["A"], d["B"], d["Q"], d["R"], d["N"], X, replay, env=env)
+            sx = max(1.0, float(np.max(np.abs(base)))) * float((1 + ninf(d["A"])) ** 2)
+            if float(np.max(np.abs(X - base))) > max(env, ENV_AGREE) * sx:
+                ctx.spec_fail("ricc_forms_agree", "result with forms %s (%s) differs from qz on plain arrays by %.3e" % (
+                    labels, method, float(np.max(np.abs(X - base)))), replay)
+            for nm, arg in zip("ABQRN", args):
+                if isinstance(arg, np.ndarray) and np.shares_memory(X, arg):
+                    ctx.spec_fail("ricc_result_aliases_input", "returned X shares memory with %s" % nm, replay)
+            ctx.count("forms:ricc:calls")
+            ctx.count("forms:ricc:k=%d,n=%d" % (len(d["A"]), len(d["R"])))
+
+    for t in range(ctx.n(10, 80)):
+        n = 1 + (t % 4)
+        A = gen_stable(rng, n) if t % 3 else gen_rowcontraction(rng, n)
+        B = gen_sym_psd(rng, n)[0] if t % 2 else [[dy(rng, -4, 4, 2) for _ in range(n)] for _ in range(n)]
+        forms_lyap(A, B, ctx.n(4, 8))
+    # integer data (nilpotent A), 0-d arrays
+    forms_lyap([[F(0), F(2)], [F(0), F(0)]], [[F(1), F(1)], [F(1), F(3)]], 6)
+    for a0, b0 in [(0.5, 1.0), (-0.25, 2.0)]:
+        X = np.atleast_2d(me.solve_discrete_lyapunov(np.array(a0), np.array(b0)))
+        lyap_spec(ctx, "lyap_forms", [[F(a0)]], [[F(b0)]], X, {"fn": "solve_discrete_lyapunov", "A": a0, "B": b0, "form": "0-d"})
+        ctx.count("forms:0-d")
+    made, tries = 0, 0
+    shapes = [(1, 2), (1, 3), (2, 2), (3, 2), (2, 3), (1, 1), (2, 1), (3, 3), (4, 2)]
+    while made < ctx.n(14, 90) and tries < 2000:
+        tries += 1
+        k, n = shapes[made % len(shapes)]
+        d = gen_ricc(rng.choice(["stable", "unstable"]), k, n)
+        if d is None or d["Nzero"]:
+            continue
+        ref = ref_riccati(*map(to_np, (d["A"], d["B"], d["Q"], d["R"], d["N"])))
+        if ref is None or ref[1] > 0.97 or float(np.max(np.abs(ref[0]))) > 1e5:
+            continue
+        made += 1
+        forms_ricc(d, ctx.n(2, 5))
+    (st, X), _ = call_ricc(me, np.array(1.0), np.array(1.0), np.array(1.0), np.array(1.0), None, record=False)
+    if st == "ok":
+        ricc_spec(ctx, "ricc_forms_doubling", [[F(1)]], [[F(1)]], [[F(1)]], [[F(1)]], [[F(0)]], X, {"form": "0-d"})
+        ctx.count("forms:0-d")
+
+    # ============================ histories ========================================================
+    # many solves in one process (equal and different sizes, both solvers, all methods interleaved); EVERY returned
+    # array is kept; after each later call every held result must still be bit-identical to what it was when it was
+    # returned (and so still satisfy the exact oracle it passed); no result may share memory with another result,
+    # with an input, or with an array reachable from the modules' globals.
+    held = []
+
+    def hold(label, X, inputs, replay):
+        if not isinstance(X, np.ndarray):
+            return
+        for nm, arg in inputs:
+            if isinstance(arg, np.ndarray) and np.shares_memory(X, arg):
+                ctx.spec_fail("result_aliases_input", "%s: returned array shares memory with input %s" % (label, nm), replay)
+        for (lb2, X2, _, rp2) in held:
+            if np.shares_memory(X, X2):
+                ctx.spec_fail("results_share_memory", "%s shares memory with the earlier result of %s" % (label, lb2),
+                              {"later": replay, "earlier": rp2})
+        for nm, arr in module_arrays(me, qs):
+            if np.shares_memory(X, arr):
+                ctx.spec_fail("result_aliases_module_state", "%s: returned array shares memory with %s" % (label, nm), replay)
+        held.append((label, X, X.tobytes(), replay))
+
+    def recheck(after):
+        for (lb, X, img, rp) in held:
+            if X.tobytes() != img:
+                key = "result_overwritten_by_later_call"
+                ctx.spec_fail(key, "the array returned by %s changed after a later call (%s); it no longer is the solution "
+                                   "it was judged to be" % (lb, after), {"earlier": rp, "later": after})
+
+    nH = ctx.n(60, 400)
+    for t in range(nH):
+        n = rng.choice([1, 2, 2, 3, 3])
+        what = rng.choice(["lyap-d", "lyap-d", "lyap-d", "lyap-bs", "mqs", "ricc-d", "ricc-qz"])
+        if what in ("lyap-d", "lyap-bs", "mqs"):
+            A = gen_stable(rng, n) if rng.random() < 0.7 else gen_rowcontraction(rng, n)
+            B = gen_sym_psd(rng, n)[0]
+            An, Bn = to_np(A), to_np(B)
+            fa, fb = rng.choice(("C", "F", "T-view", "list")), rng.choice(("C", "F", "T-view", "list"))
+            a, b = as_form(An, fa), as_form(Bn, fb)
+            replay = {"fn": what, "A": An.tolist(), "B": Bn.tolist(), "forms": [fa, fb], "position_in_history": t}
+            if what == "mqs":
+                X = qs.m_quadratic_sum(a, b)
+            else:
+                X = me.solve_discrete_lyapunov(a, b, method="doubling" if what == "lyap-d" else "bartels-stewart")
+            lyap_spec(ctx, "history_" + what, A, B, np.atleast_2d(np.asarray(X, dtype=float)), replay)
+            hold(what, X, (("A", a), ("B", b)), replay)
+            if what == "lyap-d" and rng.random() < 0.5:
+                # the two Gramians of one system: same A (transposed), same size, back to back
+                Bt = gen_sym_psd(rng, n)[0]
+                At = tr(A)
+                rp2 = {"fn": "lyap-d", "A": to_np(At).tolist(), "B": to_np(Bt).tolist(), "position_in_history": t,
+                       "note": "second Gramian"}
+                X2 = me.solve_discrete_lyapunov(to_np(At), to_np(Bt))
+                lyap_spec(ctx, "history_lyap-d", At, Bt, np.atleast_2d(np.asarray(X2, dtype=float)), rp2)
+                recheck("lyap-d second Gramian at %d" % t)
+                hold("lyap-d", X2, (), rp2)
+                ctx.count("history:gramian-pair")
+        else:
+            d = None
+            for _ in range(50):
+                d = gen_ricc(rng.choice(["stable", "unstable"]), n, rng.choice([1, 2]))
+                if d is not None:
+                    rf = ref_riccati(*map(to_np, (d["A"], d["B"], d["Q"], d["R"], d["N"])))
+                    if rf is not None and rf[1] <= 0.97 and float(np.max(np.abs(rf[0]))) <= 1e5:
+                        break
+                d = None
+            if d is None:
+                continue
+            mats = tuple(map(to_np, (d["A"], d["B"], d["Q"], d["R"], d["N"])))
+            fN = rng.choice(("C", "F", "T-view", "list"))
+            args = list(mats[:4]) + [as_form(mats[4], fN)]
+            method = "doubling" if what == "ricc-d" else "qz"
+            replay = {"fn": what, "A": mats[0].tolist(), "B": mats[1].tolist(), "Q": mats[2].tolist(), "R": mats[3].tolist(),
+                      "N": mats[4].tolist(), "forms": ["C", "C", "C", "C", fN], "position_in_history": t}
+            X = me.solve_discrete_riccati(*args, method=method)
+            ricc_spec(ctx, "history_" + what, d["A"], d["B"], d["Q"], d["R"], d["N"], np.atleast_2d(X), replay)
+            hold(what, X, tuple(zip("ABQRN", args)), replay)
+        recheck("%s at %d" % (what, t))
+        ctx.count("history:" + what)
+    # final re-judgement of every held Lyapunov / Riccati result with the exact oracle
+    for (lb, X, img, rp) in held:
+        Xf = np.atleast_2d(np.asarray(X, dtype=float))
+        if lb in ("lyap-d", "lyap-bs", "mqs"):
+            lyap_spec(ctx, "history_final_" + lb, fm(rp["A"]), fm(rp["B"]), Xf, rp)
+        else:
+            ricc_spec(ctx, "history_final_" + lb, fm(rp["A"]), fm(rp["B"]), fm(rp["Q"]), fm(rp["R"]), fm(rp["N"]), Xf, rp)
+    ctx.count("history:held-results", len(held))
+    ctx.extra["module_level_arrays"] = [nm for nm, _ in module_arrays(me, qs)]
+
 
     ctx.run_cases(cases)
